@@ -115,7 +115,11 @@ Print Assumptions C10_stream_error_flushed_partial.
    from the source on this run: who takes the output lock (each is modelled),
    every one tests the closed bit after taking it, only closeSession /
    closeInputStream set the bits, Serve's deferred shutdown calls
-   closeInputStream then Close, SetCloseDeadline swaps the context under a lock. *)
+   closeInputStream then Close, SetCloseDeadline swaps the context under a lock;
+   and for WebSocket framing: Send records the opening element (so that Close
+   writes <close/>), the negotiator records the framing on the session and the
+   stream reader takes the peer's <close/> for the end of the stream — which is
+   what lets IClose / PClose stand for <close/> on such sessions. *)
 Theorem C10_source_tables :
   sc_out_lockers = map str ["Session.Close"; "Session.Encode"; "Session.EncodeElement";
                             "Session.TokenWriter"; "Session.sendError"; "send"]%string /\
@@ -126,6 +130,8 @@ Theorem C10_source_tables :
    sc_sets_input_closed = [str "Session.closeInputStream"] /\
    sc_closesession_callers = map str ["Session.Close"; "Session.sendError"]%string) /\
   sc_serve_defer_calls = map str ["closeInputStream"; "Close"]%string /\
-  sc_setclosedeadline_locked = true.
+  sc_setclosedeadline_locked = true /\
+  (sc_send_records_opening_element = true /\ sc_negotiator_records_ws = true /\
+   sc_reader_ws_close_is_eof = true).
 Proof. exact source_tables. Qed.
 Print Assumptions C10_source_tables.
